@@ -420,7 +420,7 @@ func (g *valGen) val(d *Desc, budget int) Val {
 		if g.vc.RawInvalid && rapid.IntRange(0, 2).Draw(t, "rawinvalid") == 0 {
 			return Val{S: rapid.SampledFrom([][]byte{[]byte(""), []byte("{"), []byte("1 2"), []byte(`{"a":1,"a":2}`), []byte("\"\xff\""), []byte("nul"), []byte("[1,]"), []byte(" 1 "), []byte("tru"), []byte(`"a"x`)}).Draw(t, "rawbad")}
 		}
-		return Val{S: []byte(rapid.SampledFrom([]string{"null", "1", `"s"`, "[]", "{}", `{"a":1}`, "[1,2]", ` { "k" : [ true ] } `, "1.50", `"A"`, "-0"}).Draw(t, "rawok"))}
+		return Val{S: []byte(rapid.SampledFrom([]string{"null", "1", `"s"`, "[]", "{}", `{"a":1}`, "[1,2]", ` { "k" : [ true ] } `, "1.50", `"A"`, "-0", "\"\u2028\"", "[\"<\u2029>\"]"}).Draw(t, "rawok"))}
 	case d.K == "time":
 		var sec int64
 		switch rapid.IntRange(0, 3).Draw(t, "timeclass") {
